@@ -49,8 +49,12 @@ Definition round_to_u128 (x : f64) : Z :=
   end.
 
 
+(* movestogo 0 (sent by some GUIs for sudden death) counts as not told *)
+Definition moves_to_go (gt : GameTime) : Z :=
+  match movestogo gt with Some m => if 0 <? m then m else GAME_LENGTH | None => GAME_LENGTH end.
+
 Definition calculate_time_slice (gt : GameTime) (c : color) : Z :=
-  let mtg := f64_of_Z (match movestogo gt with Some m => m | None => GAME_LENGTH end) in
+  let mtg := f64_of_Z (moves_to_go gt) in
   let is_white := match c with White => true | Black => false end in
   let clock := f64_of_Z (if is_white then wtime gt else btime gt) in
   let increment := f64_of_Z (if is_white then winc gt else binc gt) in
